@@ -119,14 +119,6 @@ class Tx:
             self.locktime = Locktime(locktime)
         self.network = network
         self.segwit = segwit
-        self._hash_prevouts = None
-        self._hash_sequence = None
-        self._hash_outputs = None
-        self._sha_prevouts = None
-        self._sha_amounts = None
-        self._sha_script_pubkeys = None
-        self._sha_sequence = None
-        self._sha_outputs = None
 
     def __repr__(self):
         tx_ins = "\n".join([str(txi) for txi in self.tx_ins])
@@ -387,30 +379,25 @@ tx_outs:\n{tx_outs}
         return big_endian_to_int(h256)
 
     def hash_prevouts(self):
-        if self._hash_prevouts is None:
-            all_prevouts = b""
-            all_sequence = b""
-            for tx_in in self.tx_ins:
-                all_prevouts += tx_in.prev_tx[::-1] + int_to_little_endian(
-                    tx_in.prev_index, 4
-                )
-                all_sequence += tx_in.sequence.serialize()
-            self._hash_prevouts = hash256(all_prevouts)
-            self._hash_sequence = hash256(all_sequence)
-        return self._hash_prevouts
+        # not cached: the inputs may change between calls
+        all_prevouts = b""
+        for tx_in in self.tx_ins:
+            all_prevouts += tx_in.prev_tx[::-1] + int_to_little_endian(
+                tx_in.prev_index, 4
+            )
+        return hash256(all_prevouts)
 
     def hash_sequence(self):
-        if self._hash_sequence is None:
-            self.hash_prevouts()  # this should calculate self._hash_prevouts
-        return self._hash_sequence
+        all_sequence = b""
+        for tx_in in self.tx_ins:
+            all_sequence += tx_in.sequence.serialize()
+        return hash256(all_sequence)
 
     def hash_outputs(self):
-        if self._hash_outputs is None:
-            all_outputs = b""
-            for tx_out in self.tx_outs:
-                all_outputs += tx_out.serialize()
-            self._hash_outputs = hash256(all_outputs)
-        return self._hash_outputs
+        all_outputs = b""
+        for tx_out in self.tx_outs:
+            all_outputs += tx_out.serialize()
+        return hash256(all_outputs)
 
     def sig_hash_bip143(
         self,
@@ -479,46 +466,37 @@ tx_outs:\n{tx_outs}
         return big_endian_to_int(hash256(s))
 
     def sha_prevouts(self):
-        if self._sha_prevouts is None:
-            all_prevouts = b""
-            all_amounts = b""
-            all_script_pubkeys = b""
-            all_sequence = b""
-            for tx_in in self.tx_ins:
-                all_prevouts += tx_in.prev_tx[::-1] + int_to_little_endian(
-                    tx_in.prev_index, 4
-                )
-                all_amounts += int_to_little_endian(tx_in.value(self.network), 8)
-                all_script_pubkeys += tx_in.script_pubkey(self.network).serialize()
-                all_sequence += tx_in.sequence.serialize()
-            self._sha_prevouts = sha256(all_prevouts)
-            self._sha_amounts = sha256(all_amounts)
-            self._sha_script_pubkeys = sha256(all_script_pubkeys)
-            self._sha_sequences = sha256(all_sequence)
-        return self._sha_prevouts
+        # not cached: the inputs may change between calls
+        all_prevouts = b""
+        for tx_in in self.tx_ins:
+            all_prevouts += tx_in.prev_tx[::-1] + int_to_little_endian(
+                tx_in.prev_index, 4
+            )
+        return sha256(all_prevouts)
 
     def sha_amounts(self):
-        if self._sha_amounts is None:
-            self.sha_prevouts()  # this should calculate self._sha_amounts
-        return self._sha_amounts
+        all_amounts = b""
+        for tx_in in self.tx_ins:
+            all_amounts += int_to_little_endian(tx_in.value(self.network), 8)
+        return sha256(all_amounts)
 
     def sha_script_pubkeys(self):
-        if self._sha_script_pubkeys is None:
-            self.sha_prevouts()  # this should calculate self._sha_script_pubkeys
-        return self._sha_script_pubkeys
+        all_script_pubkeys = b""
+        for tx_in in self.tx_ins:
+            all_script_pubkeys += tx_in.script_pubkey(self.network).serialize()
+        return sha256(all_script_pubkeys)
 
     def sha_sequences(self):
-        if self._sha_sequences is None:
-            self.sha_prevouts()  # this should calculate self._sha_sequences
-        return self._sha_sequences
+        all_sequence = b""
+        for tx_in in self.tx_ins:
+            all_sequence += tx_in.sequence.serialize()
+        return sha256(all_sequence)
 
     def sha_outputs(self):
-        if self._sha_outputs is None:
-            all_outputs = b""
-            for tx_out in self.tx_outs:
-                all_outputs += tx_out.serialize()
-            self._sha_outputs = sha256(all_outputs)
-        return self._sha_outputs
+        all_outputs = b""
+        for tx_out in self.tx_outs:
+            all_outputs += tx_out.serialize()
+        return sha256(all_outputs)
 
     def sig_hash_bip341(self, input_index, ext_flag=0, hash_type=SIGHASH_DEFAULT):
         """Returns the root message being signed for p2tr"""
